@@ -429,8 +429,8 @@ func (u *H1Upstream) OnData(c *sim.Conn, b []byte) {
 			u.S.Logf("h1upstream %s c%d got request with unknown token %q", u.Host, c.ID, tok)
 			continue
 		}
-		up := &UpRec{At: u.S.Now(), ConnID: c.ID, Host: u.Host, Frame: m.Raw, H: m}
 		att := len(r.Upstream)
+		up := &UpRec{At: u.S.Now(), ConnID: c.ID, Host: u.Host, Att: att, Frame: m.Raw, H: m}
 		if len(r.Script) > 0 {
 			if att < len(r.Script) {
 				up.Act = r.Script[att]
